@@ -16,6 +16,7 @@ import WntrModel.Model.UnitsNames
 import WntrModel.Gen.Units
 import WntrModel.Gen.UnitsNames
 import WntrModel.Props.C17
+import Mathlib.Tactic.NormNum
 
 namespace Wntr.Units
 
@@ -160,6 +161,59 @@ theorem signatures_are_documented :
        ("QualParam._to_si", ["self", "flow_units", "data", "mass_units", "reaction_order"]),
        ("QualParam._from_si", ["self", "flow_units", "data", "mass_units", "reaction_order"])] := by
   decide +kernel
+
+/-! ### every factor against the exact literal of ITS definition -/
+
+/-- the flow factors as EPANET / WNTR document them.  Two literals are not the physical value: 1 ft3 is written 0.0283168466 m3
+(0.3048^3 = 0.028316846592, 2.8e-10 relative) and 1 acre-foot 1233.48184 m3 (43560 * 0.3048^3 = 1233.48183754752, 2e-9 relative).
+The gallons are exact: US 3.785411784 L, Imperial 4.54609 L. -/
+def flowLit : Nat → Rat
+  | 0 => 283168466 / 10 ^ 10
+  | 4 => (123348184 / 10 ^ 5) / 86400
+  | u => flowSpec u
+
+/-- 1 ft2 is written 0.092903 m2 in the wall-coefficient conversion (0.3048^2 = 0.09290304, 4.3e-7 relative) -/
+def ft2Lit : Rat := 92903 / 10 ^ 6
+
+def tightSpec (e : Entry) : Option Rat :=
+  if e.hyd then
+    match e.param with
+    | 1 | 7 => some (flowLit e.unit)
+    | 31 => none
+    | _ => spec e
+  else
+    match e.param with
+    | 37 => some (if e.order = 0 then massSpec e.mass * (if traditional e.unit then ft2Lit else 1) / 86400
+                  else if e.order = 1 then (if traditional e.unit then ft else 1) / 86400 else 1)
+    | _ => spec e
+
+def tightTol : Rat := 1 / 10 ^ 12
+
+def tightClose (a b : Rat) : Bool := decide (b - tightTol * b ≤ a) && decide (a ≤ b + tightTol * b)
+
+def Entry.tightOk (e : Entry) : Bool :=
+  match tightSpec e with
+  | some s => tightClose (factor e.toSteps) s
+  | none => tightClose ((factor e.toSteps) ^ 2) ((flowLit e.unit) ^ 2 * (if traditional e.unit then psiPerFt / ft else 1))
+
+/-- **`factors_are_exact_literals`**: every traced factor equals the documented literal of ITS definition to 1e-12 relative (the
+rounding of a few double operations): 0.003785411784 and 0.00454609 m3 per gallon, 0.3048 m per foot, 0.0254 m per inch,
+0.3048/0.4333 m per psi, 745.699872 W per hp, 0.0283168466 m3 per ft3 of FLOW, 1233.48184 m3 per acre-foot, 0.092903 m2 per ft2,
+(0.3048)^3 for volumes, the powers of ten for litres / mass units, 86400 / 3600 / 60 s.  A constant derived another way (the
+Imperial gallon as 1.20095 US gallons: 6e-8 off) fails here; the loose 1e-5 of `factors_are_definitions` is needed nowhere. -/
+theorem factors_are_exact_literals : Gen.table.all Entry.tightOk = true := by decide +kernel
+
+/-- where EPANET's own literal is not the physical constant, and by how much (these three only) -/
+theorem literals_vs_physical :
+    |flowLit 0 - ft ^ 3| ≤ 3 / 10 ^ 10 * ft ^ 3 ∧ |flowLit 4 - 43560 * ft ^ 3 / 86400| ≤ 3 / 10 ^ 9 * (43560 * ft ^ 3 / 86400) ∧
+    |ft2Lit - ft ^ 2| ≤ 5 / 10 ^ 7 * ft ^ 2 ∧ (∀ u, u ≠ 0 → u ≠ 4 → flowLit u = flowSpec u) := by
+  refine ⟨?_, ?_, ?_, ?_⟩
+  · norm_num [flowLit, ft, abs_le]
+  · norm_num [flowLit, ft, abs_le]
+  · norm_num [ft2Lit, ft, abs_le]
+  · intro u h0 h4
+    unfold flowLit
+    split <;> simp_all
 
 /-! ### containers -/
 
